@@ -88,13 +88,25 @@ def check_case(ctx, r):
     if str(live) != a["html"]:
         ctx.violation("str-differs-from-render", "str() differs from render()['html']", wit)
         return False
-    da = ht.HTMLDocument(live).render()
-    db = ht.HTMLDocument(live_exp).render()
-    ctx.count("oracle.document")
-    if da["html"] != db["html"] or dep_vals(da["dependencies"]) != dep_vals(db["dependencies"]):
-        ctx.violation("document-expansion-differs", "HTMLDocument.render() differs from rendering the expanded tree",
-                      dict(wit, got=da["html"][:1200], want=db["html"][:1200]))
-        return False
+    # HTMLDocument in its three root cases: fragment, lone <body>, lone <html> (with and without <head>)
+    def roots(x):
+        yield "fragment", lambda: x
+        yield "body", lambda: ht.tags.body(x, class_="b")
+        yield "html", lambda: ht.tags.html(ht.tags.body(x), lang="en")
+        yield "html+head", lambda: ht.tags.html(ht.tags.head(ht.tags.title("t")), ht.tags.body("lead", x))
+
+    which = ctx.rng.randrange(4)
+    for k, ((shape, mk_a), (_, mk_b)) in enumerate(zip(roots(gen.build(r)), roots(gen.build(exp[0]) if r["k"] == "tag" else ht.TagList(*[gen.build(c) for c in exp])))):
+        if k != which and k != 0:
+            continue
+        da = ht.HTMLDocument(mk_a()).render()
+        db = ht.HTMLDocument(mk_b()).render()
+        ctx.count("oracle.document")
+        ctx.state("document_roots", shape)
+        if da["html"] != db["html"] or dep_vals(da["dependencies"]) != dep_vals(db["dependencies"]):
+            ctx.violation("document-expansion-differs", "HTMLDocument.render() (%s root) differs from rendering the expanded tree" % shape,
+                          dict(wit, root=shape, got=da["html"][:1200], want=db["html"][:1200]))
+            return False
     # error half
     ctx.count("oracle.unexpanded")
     raised = None
@@ -133,7 +145,7 @@ def rand_node(rng, ids, depth, kind=None):
         kind = "text"
     if kind == "tag":
         n = rng.choice([0, 1, 2, 3, 4])
-        return gen.TAG(rng.choice(lg.BLOCKS + lg.INLINES + ["br"]), *[rand_node(rng, ids, depth - 1) for _ in range(n)],
+        return gen.TAG(rng.choice(lg.BLOCKS + lg.INLINES + ["br", "script", "style", "head", "body"]), *[rand_node(rng, ids, depth - 1) for _ in range(n)],
                        ws=rng.random() < 0.5, how=rng.choice(gen.HOWS), via_fn=False)
     if kind == "text":
         return {"k": "text", "s": ids.next("t")}
